@@ -3,7 +3,7 @@
 use std::{
     marker::PhantomData,
     sync::Arc,
-    sync::mpsc::{Sender, channel},
+    sync::mpsc::{RecvTimeoutError, Sender, channel},
     thread,
     time::{Duration, Instant},
 };
@@ -59,9 +59,15 @@ where
                         last_flush = Instant::now();
                         let _ = sender.send(());
                     }
-                    Err(_) => {
+                    Err(RecvTimeoutError::Timeout) => {
                         inner.flush();
                         last_flush = Instant::now();
+                    }
+                    // every sender is gone: emit what is left and stop, rather than spinning on
+                    // a channel that reports the disconnect immediately
+                    Err(RecvTimeoutError::Disconnected) => {
+                        inner.flush();
+                        return;
                     }
                 }
             }
